@@ -571,6 +571,35 @@ def rule_save_protocol(ctx, rep):
     ok = any(i.op == 'call' and i.callee in ('exit', 'os_abort') for b in deadv for i in vc.blocks[b])
     opens = list(vc.calls('sopen_read'))
     rep.check(ok and bool(opens), 'R-C09-6', 'state_verify_content re-opens each .tmp and is fatal on failure', vc.file, '%d sopen_read sites' % len(opens), function='state_verify_content', construct='fatal on failure')
+    # sticky failure flag: the local that makes state_verify_content exit after the join loop may only be raised inside loops
+    # (constant non-zero store or or-accumulation), never overwritten with a per-copy value
+    for fn in (vc, w):
+        dd = dead_blocks(fn)
+        for b in range(len(fn.blocks)):
+            t = fn.term(b)
+            if t.op == 'br' and len(t.ops) == 3 and t.ops[2][1] in dd:
+                ci = fn.inst_of(t.ops[0])
+                li = fn.inst_of(ci.ops[0]) if ci is not None and ci.op == 'icmp' else None
+                if li is None or li.op != 'load':
+                    continue
+                a = fn.strip(li.ops[0])
+                if a[0] != 'i' or fn.insts[a[1]].op != 'alloca' or fn.loop_of(b) is not None:
+                    continue
+                al = fn.insts[a[1]]
+                inloop = [u for u in fn.users.get(al.id, ()) if u.op == 'store' and fn.strip(u.ops[1]) == a and fn.loop_of(u.block) is not None]
+                if not inloop:
+                    continue
+                bad = []
+                for u in inloop:
+                    k = fn.const_of(u.ops[0])
+                    if k is not None and k != 0:
+                        continue
+                    vi = fn.inst_of(u.ops[0])
+                    if vi is not None and vi.op == 'or' and any(fn.expr(o) == (al.var or al.name) for o in vi.ops):
+                        continue
+                    bad.append(u)
+                rep.check(not bad, 'R-C09-6', '%s: failure flag `%s` is sticky across the per-copy loop' % (fn.name, al.var), (bad[0].loc() if bad else t.loc()),
+                          '%d raising stores in loops' % len(inloop) if not bad else 'the flag is overwritten inside the loop by %s: a failure of an earlier copy is forgotten' % fn.expr(bad[0].ops[0]), function=fn.name, construct='sticky flag %s' % al.var)
     # who calls rename on content names
     rn = P.fn('state_rename_content')
     rep.analysed(rn)
